@@ -159,6 +159,9 @@ func (e *c06Env) waitIdle() error {
 			continue
 		}
 		if !ok {
+			if st, sum, _ := c20Structural(); st {
+				return fmt.Errorf("violation: an import or removal accepted before the crash never finishes: every wallet goroutine is idle (%s)", strings.Join(sum, "; "))
+			}
 			return fmt.Errorf("inconclusive: background work did not finish")
 		}
 		if e.wd.W.Quiesce(30 * time.Second) {
@@ -387,6 +390,69 @@ func (e *c06Env) scenario(kind string) error {
 				return err
 			}
 		}
+	case "S4": // import of a wallet with history on a chain of > 1000 blocks: two rescan batches
+		if err := e.importWallet("a"); err != nil {
+			return err
+		}
+		if err := e.waitIdle(); err != nil {
+			return err
+		}
+		if err := e.refreshKeys("a"); err != nil {
+			return err
+		}
+		// b exists as a mnemonic only; its first addresses are derived independently and paid
+		var kb *sim.WalletKeys
+		for kb == nil {
+			m, err := keystore.NewMnemonic(e.rs.Bytes(16))
+			if err != nil {
+				return err
+			}
+			ref, err := refWalletFrom(m, "c06passb")
+			if err != nil || ref.ShortRisk {
+				continue
+			}
+			e.mn["b"], e.pass["b"] = m, "c06passb"
+			kb = &sim.WalletKeys{ID: ref.ID(), Pass: "c06passb", Mnemonic: m, Owned: map[[32]byte]bool{}, Staking: map[[32]byte]bool{}}
+			for i := uint32(0); i < 3; i++ {
+				if std, _, h, ok := ref.Address(i); ok {
+					kb.Std = append(kb.Std, std)
+					kb.Hashes = append(kb.Hashes, h)
+					kb.Owned[h] = true
+				}
+			}
+		}
+		e.wd.Keys = append(e.wd.Keys, kb)
+		n := 1002 + e.rs.Intn(6)
+		for i := 0; i < n; i++ {
+			nr := 0
+			if i%83 == 7 || i > n-6 {
+				nr = 2
+			}
+			if err := e.extend(nr, true); err != nil {
+				return err
+			}
+		}
+		if err := e.waitIdle(); err != nil {
+			return err
+		}
+		e.wd.Keys = e.wd.Keys[:1]
+		if err := e.importWallet("b"); err != nil {
+			return err
+		}
+		for i := 0; i < 2; i++ {
+			if err := e.extend(1, true); err != nil {
+				return err
+			}
+		}
+		if err := e.waitIdle(); err != nil {
+			return err
+		}
+		if err := e.refreshKeys("a", "b"); err != nil {
+			return err
+		}
+		if err := e.extend(1, true); err != nil {
+			return err
+		}
 	case "S5": // background removal of one of two wallets
 		if err := e.importWallet("a"); err != nil {
 			return err
@@ -519,7 +585,15 @@ func c06Case(t *core.T, kind string, variant int, maxK int, pairs int) {
 	t.Max("commits_in_scenario_"+kind, int(C))
 	// which boundaries
 	var ks []int64
-	if int(C) <= maxK {
+	if kind == "S4" {
+		// the block commits of the long chain are S1's subject: take the last maxK boundaries
+		// (import of b, its rescan batches, the blocks arriving meanwhile)
+		for k := C - int64(maxK) + 1; k <= C; k++ {
+			if k >= 1 {
+				ks = append(ks, k)
+			}
+		}
+	} else if int(C) <= maxK {
 		for k := int64(1); k <= C; k++ {
 			ks = append(ks, k)
 		}
@@ -540,7 +614,7 @@ func c06Case(t *core.T, kind string, variant int, maxK int, pairs int) {
 		}
 		sort.Slice(ks, func(i, j int) bool { return ks[i] < ks[j] })
 	}
-	exhaustive := int(C) <= maxK
+	exhaustive := int(C) <= maxK || kind == "S4" // S4: exhaustive over its import phase
 	type job struct {
 		k, second int64
 		before    bool
@@ -600,18 +674,18 @@ type c06Plan struct {
 }
 
 var c06Plans = map[string][]c06Plan{
-	"quick":    {{"S1", 6, 200, 2}, {"S2", 4, 200, 2}, {"S5", 4, 200, 2}},
-	"thorough": {{"S1", 40, 2000, 20}, {"S2", 24, 2000, 12}, {"S5", 24, 2000, 12}},
+	"quick":    {{"S1", 6, 200, 2}, {"S2", 4, 200, 2}, {"S5", 4, 200, 2}, {"S4", 2, 9, 0}},
+	"thorough": {{"S1", 40, 2000, 20}, {"S2", 24, 2000, 12}, {"S5", 24, 2000, 12}, {"S4", 12, 16, 2}},
 }
 
 func init() {
 	core.Register(&core.Property{
 		ID:    "C06",
 		Level: "fault_enumeration",
-		Rule: "case = one deterministic scenario variant (S1 live following with reorgs, S2 orderly stop + node moves on incl. a reorg + start-up catch-up of 30-60 blocks, S5 background removal of one of two wallets while blocks arrive); a crash-free twin run counts the wallet-database commits C and records the final observation; then EVERY commit boundary k=1..C is taken as crash point on both sides " +
+		Rule: "case = one deterministic scenario variant (S1 live following with reorgs, S2 orderly stop + node moves on incl. a reorg + start-up catch-up of 30-60 blocks, S5 background removal of one of two wallets while blocks arrive, S4 import of a wallet with history on a chain of > 1000 blocks — two rescan batches — for which the boundaries of the import phase are taken); a crash-free twin run counts the wallet-database commits C and records the final observation; then EVERY commit boundary k=1..C is taken as crash point on both sides " +
 			"(before: commit k lost; after: commit k is the last one written), plus random double crashes: the interposer freezes the database at the boundary, the instance is stopped and abandoned, a new instance opens the same directory, unfinished API steps are repeated, the scenario continues. " +
 			"Oracles: final observation == twin's and == reference ledger; the wallet must come up. distinct_nontrivial = distinct (scenario, variant, k, side, second crash) runs in which the crash point was actually reached",
-		Assumptions: []string{"a crash is modelled as freeze-and-abandon at a commit boundary: a LevelDB batch write is the only way data reaches the files, so the files hold exactly the first k commits", "wallets are created from scenario-determined mnemonics so that twin and crash runs are comparable", "multi-batch import (chains > 2000 blocks) is exercised by C07, not here"},
+		Assumptions: []string{"a crash is modelled as freeze-and-abandon at a commit boundary: a LevelDB batch write is the only way data reaches the files, so the files hold exactly the first k commits", "wallets are created from scenario-determined mnemonics so that twin and crash runs are comparable"},
 		MaxProcs:    16,
 		CaseTimeout: 1500 * time.Second,
 		Cases: func(tier string, seed int64) int {
